@@ -17,7 +17,7 @@
        is built from the rounded-down values, so it can lie below e^x when the
        next term is < 1 ulp. *)
 From Coq Require Import Reals.
-From PV Require Import Lib.Base C16.Model C16.Proofs.
+From PV Require Import Lib.Base C16.Model C16.Proofs C16.ProofsAll.
 Open Scope Z_scope.
 
 Theorem exp_cmp_lt_sound : forall max_n x bound cmp, 0 <= x ->
@@ -64,6 +64,28 @@ Theorem exp_cmp_iterations_le : forall max_n x bound cmp, 0 <= max_n ->
   0 <= iterations (ref_exp_cmp max_n x bound cmp) <= max_n.
 Proof. exact exp_cmp_iterations_proof. Qed.
 
+(* Arguments of either sign (x < 0 is not what the leader check passes, but the statement
+   says "a bound that dominates e^|x|").  Before /repo commit f6d913e7 the code multiplied
+   the bound with the SIGNED error estimate, which swapped the thresholds on every other
+   iteration for x < 0 (x = -1, compare = 0.2 < e^-1 answered GT; corpus/C16); repaired to
+   |error| * bound, and for the repaired code both answers are right up to the same margin: *)
+Theorem exp_cmp_sound_margin_all_x : forall max_n x bound cmp,
+  (exp (Rabs (IZR x / IZR PREC)) <= IZR bound)%R ->
+  let r := ref_exp_cmp max_n x bound cmp in
+  let M := IZR (bound * (iterations r + bound)) in
+  (estimation r = GT -> ((IZR cmp + M) / IZR PREC > exp (IZR x / IZR PREC))%R) /\
+  (estimation r = LT -> ((IZR cmp - M) / IZR PREC < exp (IZR x / IZR PREC))%R).
+Proof. exact exp_cmp_sound_margin_all_proof. Qed.
+
+Theorem exp_cmp_sound_outside_margin_all_x : forall max_n x bound cmp,
+  (exp (Rabs (IZR x / IZR PREC)) <= IZR bound)%R ->
+  let r := ref_exp_cmp max_n x bound cmp in
+  ~ (Rabs (IZR cmp / IZR PREC - exp (IZR x / IZR PREC))
+       < IZR (bound * (iterations r + bound)) / IZR PREC)%R ->
+  (estimation r = GT -> (IZR cmp / IZR PREC > exp (IZR x / IZR PREC))%R) /\
+  (estimation r = LT -> (IZR cmp / IZR PREC < exp (IZR x / IZR PREC))%R).
+Proof. exact exp_cmp_sound_outside_margin_all_proof. Qed.
+
 (* non-vacuity: the hypotheses are satisfiable and all three answers occur *)
 Example exp_cmp_examples :
   estimation (ref_exp_cmp 1000 (5 * 10 ^ 32) 3 (10 ^ 34 + 7 * 10 ^ 33)) = GT /\
@@ -73,5 +95,8 @@ Example exp_cmp_examples :
   ref_exp_cmp 3 (5 * 10 ^ 32) 3 10512710963760240396975176363356452
     = mkResult 3 UNKNOWN 10512708333333333333333333333333333 /\
   ref_exp_cmp 1000 (5 * 10 ^ 32) 3 10512710963760240396975176363356452
-    = mkResult 11 UNKNOWN 10512710963760240396975171246818377.
+    = mkResult 11 UNKNOWN 10512710963760240396975171246818377 /\
+  (* x = -1: 0.2 < e^-1 = 0.3678... < 0.5 *)
+  estimation (ref_exp_cmp 1000 (- 10 ^ 34) 3 (2 * 10 ^ 33)) = LT /\
+  estimation (ref_exp_cmp 1000 (- 10 ^ 34) 3 (5 * 10 ^ 33)) = GT.
 Proof. vm_compute. repeat split. Qed.
